@@ -74,6 +74,7 @@ var glTargets = []glTarget{
 	{pkg: "service", recv: "natmap", name: "Close"},
 	{pkg: "service", recv: "packetHandler", name: "validatePacket", opaque: map[string]bool{"SplitAddr": true, "ResolveUDPAddr": true, "ensureConnectionError": true, "String": true}},
 	{pkg: "service", recv: "streamHandler", name: "handleConnection", trace: true, opaque: map[string]bool{"getProxyRequest": true, "proxyConnection": true, "FuncStreamDialer": true, "Copy": true, "absorbProbe": true}},
+	{pkg: "service", recv: "streamHandler", name: "Handle", trace: true, opaque: map[string]bool{"getProxyRequest": true, "proxyConnection": true, "FuncStreamDialer": true, "Copy": true, "absorbProbe": true, "MeasureConn": true, "Since": true}},
 	{pkg: "service", recv: "", name: "findEntry", listElem: "CipherEntry", opaque: map[string]bool{"Unpack": true}, drop: map[string]bool{"debugTCP": true}},
 	{pkg: "service", recv: "", name: "findAccessKey", listElem: "CipherEntry", opaque: map[string]bool{"Unpack": true, "MultiReader": true, "NewReader": true, "ReadFull": true, "Errorf": true, "Since": true}, drop: map[string]bool{"debugTCP": true}},
 	{pkg: "service/metrics", recv: "measuredConn", name: "Read"},
@@ -103,6 +104,7 @@ type glFn struct {
 	p       *packages.Package
 	fd      *ast.FuncDecl
 	body    strings.Builder
+	escaped    map[types.Object]bool // locals a pointer into which was handed to an opaque function
 	inoutValue bool            // translating a call whose result is used and whose in-outs are written back (see cond)
 	lastRes    string          // the result of that call
 	sig     *types.Signature   // of the translated function (for a literal: of the literal)
@@ -592,6 +594,17 @@ func isNilIdent(e ast.Expr) bool {
 
 // exprAs translates e where the context wants type t (gives the untyped nil its meaning)
 func (f *glFn) exprAs(e ast.Expr, t types.Type) string {
+	if u, ok := e.(*ast.UnaryExpr); ok && u.Op == token.AND {
+		if _, isI := t.Underlying().(*types.Interface); isI {
+			if cl, ok := u.X.(*ast.CompositeLit); ok && len(cl.Elts) == 0 {
+				// a fresh object of a repo type with no fields set, stored in an interface variable (&NoOpTCPConnMetrics{}): a parameter
+				lt := f.leanType(t)
+				n := "new_" + strings.NewReplacer("service.", "", "metrics.", "", ".", "_").Replace(types.TypeString(f.typeOf(cl), func(p *types.Package) string { return p.Name() }))
+				f.addExtra(lid(n), lt)
+				return lid(n)
+			}
+		}
+	}
 	if isNilIdent(e) {
 		z := f.g.zero(t, f.t.strBytes)
 		if z == "sorryUnsupported" {
@@ -1085,6 +1098,20 @@ func (f *glFn) call(c *ast.CallExpr, value bool) string {
 		var ats []string
 		var as []string
 		for i := range c.Args { // all of them: a variadic function is a parameter of the arity it is called with
+			if u, ok := c.Args[i].(*ast.UnaryExpr); ok && u.Op == token.AND {
+				if se, ok := u.X.(*ast.SelectorExpr); ok {
+					if obj := f.objOf(se.X); obj != nil {
+						// &v.field handed to an opaque function: from here on v is written behind the translation's back.
+						// The pointer is not passed on; v is marked, its value is recorded as unknown (`[]`) in effect logs,
+						// and any other read of it is refused.
+						if f.escaped == nil {
+							f.escaped = map[types.Object]bool{}
+						}
+						f.escaped[obj] = true
+						continue
+					}
+				}
+			}
 			ats = append(ats, f.leanType(f.typeOf(c.Args[i])))
 			as = append(as, f.expr(c.Args[i]))
 		}
@@ -1120,7 +1147,7 @@ func (f *glFn) call(c *ast.CallExpr, value bool) string {
 						vals = append(vals, at)
 					}
 					f.fnEff = true
-					return "eff__ := eff__ ++ [{ name := " + leanStr(rn+"."+fn.Name()) + ", args := [], vals := [[Atom.tok (" + f.expr(sel.X) + ").val], " + strings.Join(vals, ", ") + "] }]"
+					return "eff__ := eff__ ++ [{ name := " + leanStr(rn+"."+fn.Name()) + ", args := [], vals := [" + strings.Join(append([]string{"[Atom.tok (" + f.expr(sel.X) + ").val]"}, vals...), ", ") + "] }]"
 				}
 				var as []string
 				allInt := true
@@ -1223,9 +1250,9 @@ func (f *glFn) call(c *ast.CallExpr, value bool) string {
 			as = append(as, f.expr(a))
 		}
 		name := callee.leanName()
-		if len(callee.inouts) > 0 {
+		if len(callee.inouts) > 0 || callee.fnEff {
 			if (value || callee.nres > 0) && !(f.inoutValue && callee.nres == 1) {
-				return f.fail(c, "call of a translated function with in-out parameters in value position")
+				return f.fail(c, "call of a translated function with in-out parameters (or an effect log) in value position")
 			}
 			// the in-outs come back as a tuple: receiver first, then the pointer parameters in order
 			var lhs []ast.Expr
@@ -1233,7 +1260,11 @@ func (f *glFn) call(c *ast.CallExpr, value bool) string {
 				lhs = append(lhs, sel.X)
 			}
 			for _, i := range callee.ptrParams {
-				lhs = append(lhs, c.Args[i])
+				a := c.Args[i]
+				if u, ok := a.(*ast.UnaryExpr); ok && u.Op == token.AND {
+					a = u.X // &v: the callee's changes come back into v
+				}
+				lhs = append(lhs, a)
 			}
 			f.tmp++
 			t := fmt.Sprintf("t__%d", f.tmp)
@@ -1241,8 +1272,25 @@ func (f *glFn) call(c *ast.CallExpr, value bool) string {
 			total := len(lhs)
 			if f.inoutValue {
 				total += callee.nres
-				f.lastRes = t + strings.Repeat(".2", len(lhs)) // the one result comes after the in-outs
 			}
+			if callee.fnEff {
+				total++ // the callee's own effect log comes last
+			}
+			comp := func(j int) string { // component j of a right-nested tuple of `total` components
+				p := t + strings.Repeat(".2", j)
+				if j < total-1 {
+					p += ".1"
+				}
+				return p
+			}
+			if f.inoutValue {
+				f.lastRes = comp(len(lhs)) // the one result comes after the in-outs
+			}
+			if total == 1 && callee.fnEff && len(lhs) == 0 {
+				f.fnEff = true
+				return out + "\neff__ := eff__ ++ " + t
+			}
+			defer func() {}()
 			for i, l := range lhs {
 				proj := t
 				for j := 0; j < i; j++ {
@@ -1255,6 +1303,10 @@ func (f *glFn) call(c *ast.CallExpr, value bool) string {
 				if wb := f.writeBack(l); wb != "" {
 					out += "\n" + wb
 				}
+			}
+			if callee.fnEff {
+				f.fnEff = true
+				out += "\neff__ := eff__ ++ " + comp(total-1) // the calls the callee made, in their place in the caller's log
 			}
 			return out
 		}
@@ -1271,7 +1323,7 @@ func (f *glFn) hasInOutCall(e ast.Expr) bool {
 			if fn, ok := f.calleeObj(c).(*types.Func); ok && fn.Pkg() != nil {
 				_, rn := recvNamed(fn)
 				key := strings.TrimPrefix(fn.Pkg().Path(), "github.com/Jigsaw-Code/outline-ss-server/") + "." + rn + "." + fn.Name()
-				if callee, ok := f.g.fns[key]; ok && len(callee.inouts) > 0 {
+				if callee, ok := f.g.fns[key]; ok && (len(callee.inouts) > 0 || callee.fnEff) {
 					found = true
 				}
 			}
@@ -1421,6 +1473,11 @@ func (f *glFn) rootStruct(e ast.Expr) string {
 
 // atoms renders a value as a list of GoRT.Atom (structures are flattened field by field)
 func (f *glFn) atoms(e string, t types.Type) (string, bool) {
+	for obj := range f.escaped {
+		if e == f.nameOf(obj, obj.Name()) {
+			return "[]", true // written behind the translation's back: its value is not part of the log
+		}
+	}
 	lt := f.leanType(t)
 	switch {
 	case lt == "Int":
@@ -1702,6 +1759,10 @@ func (f *glFn) traceCalls(s ast.Stmt, ind int) {
 			if name != "" {
 				var vals []string
 				for _, a := range x.Args {
+					if u, isAmp := a.(*ast.UnaryExpr); isAmp && u.Op == token.AND {
+						vals = append(vals, "[]") // a pointer: not a value of the log
+						continue
+					}
 					if at, ok := f.atoms(f.expr(a), f.typeOf(a)); ok && !isPtrToRepoStruct(f.typeOf(a)) {
 						vals = append(vals, at)
 					} else {
@@ -1933,6 +1994,15 @@ func (f *glFn) stmt(s ast.Stmt, ind int) {
 			for i := range x.Lhs {
 				f.emit(ind, f.defOrAssign(x, i, tmps[i]))
 			}
+			return
+		}
+		if c, ok := x.Rhs[0].(*ast.CallExpr); ok && len(x.Lhs) == 1 && f.isTranslatedCall(c) && f.hasInOutCall(c) {
+			// x := g(...) where the translated g changes its receiver / pointer arguments or has an effect log of its own
+			f.inoutValue = true
+			out := f.call(c, true)
+			f.inoutValue = false
+			f.emit(ind, out)
+			f.emit(ind, f.defOrAssign(x, 0, f.lastRes))
 			return
 		}
 		f.emit(ind, f.defOrAssign(x, 0, f.exprAs(x.Rhs[0], f.typeOf(x.Lhs[0]))))
@@ -2435,6 +2505,60 @@ func (f *glFn) leanName() string {
 	return lid(f.t.name)
 }
 
+// checkEscaped: a local a pointer into which went to an opaque function may afterwards only be handed on — as `&v` /
+// `&v.f` to a call, or as a plain argument of a call in statement position (an effect, where it is logged as unknown).
+// Any other use would read a value the translation does not know.
+func (f *glFn) checkEscaped(body *ast.BlockStmt) {
+	if len(f.escaped) == 0 {
+		return
+	}
+	var stack []ast.Node
+	ast.Inspect(body, func(n ast.Node) bool {
+		if n == nil {
+			stack = stack[:len(stack)-1]
+			return true
+		}
+		stack = append(stack, n)
+		id, ok := n.(*ast.Ident)
+		if !ok || !f.escaped[f.p.TypesInfo.Uses[id]] {
+			return true
+		}
+		// walk up: [.. CallExpr, (UnaryExpr &)?, (SelectorExpr)?, Ident]
+		i := len(stack) - 2
+		if i >= 0 {
+			if se, ok := stack[i].(*ast.SelectorExpr); ok && se.X == id {
+				i--
+			}
+		}
+		underAmp := false
+		if i >= 0 {
+			if u, ok := stack[i].(*ast.UnaryExpr); ok && u.Op == token.AND {
+				underAmp = true
+				i--
+			}
+		}
+		if i >= 0 {
+			if c, ok := stack[i].(*ast.CallExpr); ok {
+				isArg := false
+				for _, a := range c.Args {
+					if a == stack[i+1] {
+						isArg = true
+					}
+				}
+				_, stmtPos := interface{}(nil), false
+				if i >= 1 {
+					_, stmtPos = stack[i-1].(*ast.ExprStmt)
+				}
+				if isArg && (underAmp || stmtPos) {
+					return true
+				}
+			}
+		}
+		f.fail(id, "read of %s, a local written behind the translation's back (a pointer into it was handed to an opaque function)", id.Name)
+		return true
+	})
+}
+
 func (f *glFn) sigOf() *types.Signature {
 	if f.sig != nil {
 		return f.sig
@@ -2583,6 +2707,7 @@ func (f *glFn) translate() {
 	for _, s := range list {
 		f.stmt(s, 1)
 	}
+	f.checkEscaped(fd.Body)
 	// a body that ends in panic(...): the statement after it is never reached, but the `do` block needs a value
 	if n := len(list); n > 0 && sig.Results().Len() > 0 {
 		if es, ok := list[n-1].(*ast.ExprStmt); ok {
